@@ -136,8 +136,15 @@ def _explore(ctx, max_len):
             # node pattern by position: text / text-break-text / text-break
             # (every third sequence: neighbouring captions carry the SAME text - a repeated line is still a line)
             seq = [(sp, (f"t{i // 2}" if n_seq % 3 == 0 else f"t{i}"), i % 3) for i, sp in enumerate(spans)]
+            if n_seq % 5 == 2 and len(seq) >= 2:
+                # one caption that displays nothing (a blank): still a caption - it joins, starts and ends runs like any other
+                j = n_seq % len(seq)
+                seq[j] = (seq[j][0], " ", 0)
             W.with_layout = n_seq % 2 == 0          # every other sequence: all captions positioned
-            langs = {"en-US": [W.caption(*c) for c in seq], "fr": [W.caption(*c) for c in other]}
+            langs = {"en-US": [W.caption(*c) for c in seq]}
+            if n_seq % 4 == 1:
+                langs["de"] = []                    # a language without captions between two that have some: it stays empty
+            langs["fr"] = [W.caption(*c) for c in other]
             case = {"timespans": [SPANS[s] for s in spans]}
             try:
                 got = W.run(langs)
@@ -150,8 +157,11 @@ def _explore(ctx, max_len):
             except AnalysisError as e:
                 raise AnalysisError(f"merge_concurrent_captions cannot be folded: {e}")
             want = {"en-US": _expected(seq), "fr": _expected(other)}
-            if set(first) != set(want) or first.get("fr") != want["fr"]:
-                bad["R-LOOP"].append(dict(case, second_language=first.get("fr"), required=want["fr"]))
+            if "de" in langs:
+                want["de"] = []
+            if set(first) != set(want) or first.get("fr") != want["fr"] or first.get("de", []) != want.get("de", []):
+                bad["R-LOOP"].append(dict(case, second_language=first.get("fr"), required=want["fr"],
+                                          **({"language_without_captions": first.get("de")} if "de" in langs else {})))
                 continue
             g, w = first["en-US"], want["en-US"]
             strip = lambda ns: [x for x in ns if x != "<br>"]   # noqa: E731
